@@ -33,11 +33,38 @@ AES_set_encrypt_key(const unsigned char * userKey, const int bits, AES_KEY * key
 	__CPROVER_assert(bits != 192, "MODEL-LIMIT: AES-192 is not modelled (unused by libcperciva)");
 	__CPROVER_assert(__CPROVER_r_ok(userKey, bits / 8), "AES_set_encrypt_key: userKey readable for bits/8 bytes");
 	__CPROVER_assert(__CPROVER_w_ok(key, sizeof(AES_KEY)), "AES_set_encrypt_key: key object writable");
+#ifdef OPENSSL_AES_G3
+	/* G3 variant: an opaque expanded key (arbitrary content) */
+	__CPROVER_havoc_object(key);
+#else
 	spec_aes_key_expansion(userKey, bits / 32, (uint8_t *)key->rd_key);
+#endif
 	key->rounds = bits / 32 + 6;
 	return (0);
 }
 
+#ifdef OPENSSL_AES_G3
+/*
+ * G3 variant for the dispatcher proofs: AES_encrypt is SOME function of (key object, input block) -- at the ghost
+ * point (g_aes_key, g_aes_X) its value is g_aes_Y, elsewhere it is unconstrained.  (What function it is -- FIPS-197
+ * Cipher over the schedule stored by AES_set_encrypt_key -- is the assumption stated by the default variant below.)
+ */
+void
+AES_encrypt(const unsigned char * in, unsigned char * out, const AES_KEY * key)
+{
+	uint8_t t[16];
+	int atpoint;
+
+	__CPROVER_assert(__CPROVER_r_ok(in, 16) && __CPROVER_w_ok(out, 16), "AES_encrypt: 16-byte blocks");
+	__CPROVER_assert(__CPROVER_r_ok(key, sizeof(AES_KEY)) && (key->rounds == 10 || key->rounds == 14),
+	    "AES_encrypt: key is an expanded AES_KEY");
+	atpoint = ((const void *)key == (const void *)g_aes_key);
+	for (int i = 0; i < 16; i++)
+		atpoint = atpoint && (in[i] == g_aes_X[i]);
+	for (int i = 0; i < 16; i++)
+		out[i] = atpoint ? g_aes_Y[i] : t[i];
+}
+#else
 void
 AES_encrypt(const unsigned char * in, unsigned char * out, const AES_KEY * key)
 {
@@ -50,4 +77,5 @@ AES_encrypt(const unsigned char * in, unsigned char * out, const AES_KEY * key)
 	for (int i = 0; i < 16; i++)
 		out[i] = t[i];
 }
+#endif
 #pragma CPROVER check pop
